@@ -491,6 +491,36 @@ def check_c14(tier):
                     sc.chk.violation("property", "set_primal replaced the incumbent although the new value %d is not strictly greater than %d" % (sq[1][0], sq[0][0]), ctx)
                 if len(sq) >= 2: sc.stats["primal_sequences"] = sc.stats.get("primal_sequences", 0) + 1
             sc.compare_model(I, case, li, lm)
+    # the PARALLEL solver has its own set_primal: un-scheduled 2-thread runs (own process + watchdog each), same oracle
+    pcases = []; pmeta = []
+    for I, en in list(zip(insts, enums))[:(12 if tier == "quick" else 60)]:
+        opt = en[0]
+        if opt == "none": continue
+        items = [(dec_list(it.rpartition(":")[0]), int(it.rpartition(":")[2])) for it in en[1].split()]
+        best = [s_ for s_, v in items if v == int(opt)]
+        worse = sorted([(v, s_) for s_, v in items if v < int(opt)], key=lambda t: -t[0])
+        seqs = [[(int(opt), best[0])]]
+        if worse: seqs += [[(worse[0][0], worse[0][1])], [(int(opt), best[0]), (worse[0][0], worse[0][1])], [(worse[-1][0], worse[-1][1]), (int(opt), best[0])]]
+        if len(best) >= 2: seqs.append([(int(opt), best[0]), (int(opt), best[1])])
+        for sq in seqs:
+            for (flv, cache, fr, w) in ((0, 0, 0, 1), (2, 1, 1, 2)):
+                pcases.append((I.line(), sline(1, 2, 2, flv, cache, fr, w, 0, 0, primal=[(pv, sorted(sol)) for pv, sol in sq])))
+                pmeta.append((I, int(opt), sq))
+    pres = run_par_cases(pcases)
+    sc.stats["parallel_warm_start_runs"] = len(pres)
+    for (il, case), li, (I, opt, sq) in zip(pcases, pres, pmeta):
+        f = kv(li); pv = max(v for v, _ in sq)
+        ctx = describe(I, case, li, None, optimum=str(opt), primal=pv)
+        if "CRASH" in li or "HANG" in li:
+            sc.chk.violation("property", "parallel maximize() with a warm-start primal panics / hangs", ctx); continue
+        want = max(pv, opt)
+        if f.get("x") != "1" or f.get("bv") != str(want):
+            sc.chk.violation("property", "parallel solver with feasible primal %d returns %s (exact=%s); expected %d" % (pv, f.get("bv"), f.get("x"), want), ctx)
+        else:
+            m = solution_ok(I, f, want)
+            if m: sc.chk.violation("property", "parallel solver: solution returned with a warm start does not replay to %d: %s" % (want, m), ctx)
+            if len(sq) >= 2 and sq[0][0] == opt and sq[1][0] <= sq[0][0] and dec_list(f.get("sol")) == sorted(sq[1][1]) and sorted(sq[1][1]) != sorted(sq[0][1]):
+                sc.chk.violation("property", "parallel set_primal replaced the incumbent although the new value %d is not strictly greater than %d" % (sq[1][0], sq[0][0]), ctx)
     return sc.finish(RULE + "; primal = (value, witness solution) taken from the specification's enumeration: optimum, best sub-optimal, worst",
                      "Warm-start runs compared with max(primal, optimum) from exhaustive enumeration and with the Coq solver model started from set_primal.",
                      ["cache / dominance / pooled configurations: correspondence + oracle only"])
